@@ -221,6 +221,35 @@ static void doCall(State &s, Toks &t) {
   } else if (name == "PA6") {
     unsigned id = t.nat(); Vector3d p = t.v3(); unsigned u = t.nat();
     o.sv(CalcPointAcceleration6D(m, s.q, s.qd, s.qdd, id, p, u != 0));
+  } else if (name == "COM") {
+    unsigned u = t.nat();
+    double mass; Vector3d com, vel, acc, am, dam;
+    Utils::CalcCenterOfMass(m, s.q, s.qd, &s.qdd, mass, com, &vel, &acc, &am, &dam, u != 0);
+    o.num(mass); o.v3(com); o.v3(vel); o.v3(acc); o.v3(am); o.v3(dam);
+  } else if (name == "COM0") {
+    // without qddot and without the optional outputs
+    unsigned u = t.nat();
+    double mass; Vector3d com, vel, am;
+    Utils::CalcCenterOfMass(m, s.q, s.qd, NULL, mass, com, &vel, NULL, &am, NULL, u != 0);
+    o.num(mass); o.v3(com); o.v3(vel); o.v3(am);
+  } else if (name == "ZMP") {
+    Vector3d n = t.v3(); Vector3d p = t.v3(); unsigned u = t.nat();
+    Vector3d zmp;
+    Utils::CalcZeroMomentPoint(m, s.q, s.qd, s.qdd, &zmp, n, p, u != 0);
+    o.v3(zmp);
+  } else if (name == "KE") {
+    unsigned u = t.nat();
+    o.num(Utils::CalcKineticEnergy(m, s.q, s.qd, u != 0));
+  } else if (name == "PE") {
+    unsigned u = t.nat();
+    o.num(Utils::CalcPotentialEnergy(m, s.q, u != 0));
+  } else if (name == "FDL") {
+    unsigned solver = t.nat();
+    VectorNd qdd = VectorNd::Zero(m.dof_count);
+    Math::LinearSolver ls = solver == 0 ? LinearSolverPartialPivLU : solver == 1 ? LinearSolverColPivHouseholderQR
+                          : solver == 2 ? LinearSolverHouseholderQR : LinearSolverLLT;
+    ForwardDynamicsLagrangian(m, s.q, s.qd, s.tau, qdd, ls, fe);
+    o.vec(qdd);
   } else {
     o.str("bad-call");
   }
